@@ -285,6 +285,11 @@ def generate_name(name_context: str, types: TypeData) -> str:
     if not types.get_by_name(name):
         return name
 
+    # Short parts (e.g. a three letter property name) were dropped above; use them too.
+    name = "".join(to_upper_camel_case(p) for p in name_context.split("_") if p)
+    if not types.get_by_name(name):
+        return name
+
     raise ValueError(f"Unable to generate name for {name_context}")
 
 
